@@ -41,11 +41,11 @@ type invocation struct {
 }
 
 type askResult struct {
-	n       int
-	err     error
-	resp    []byte
-	took    time.Duration
-	start   time.Time
+	n     int
+	err   error
+	resp  []byte
+	took  time.Duration
+	start time.Time
 }
 
 // buildSSH builds stand-alone SSH swarms on TCP loopback.
